@@ -80,6 +80,44 @@ PROPS.update({
     },
 })
 
+
+HIST_RULE = "files from the writer-configuration generator biased to tiny unclamped blocks and 1..4 index levels (several blocks at non-root index levels), 0..300 entries; probe keys cover every class: each stored key, key+00, key+FF, key minus last byte, predecessor by last byte, empty, below first, above last, random; non-trivial = file with >= 2 entries and >= 2 operations, distinct by file+history hash"
+READER_TRUST = ["the reader refinement R (cursor = abstract cursor on every well-formed file) is proved on the abstract level-sequence model of design-notes/Chain_probe.v + CeilIndex_probe.v, not yet on the executable byte-level model; the executable model is tied to the implementation by results, block-load counts and cached-block fingerprints after every operation"]
+PROPS.update({
+    "C02": {"prop_file": "props/C02.v", "scenarios": [{"name": "hist-c02"}], "rule": HIST_RULE + "; every seek on a fresh or reset cursor",
+            "trusted": READER_TRUST, "assumptions": [],
+            "not_proved": ["C02_seeks (cstep from Fresh on a well-formed file returns ceil/floor/match): needs R on the byte-level model; validated against Spec.ceil_idx/floor_idx/find_idx on every probe"]},
+    "C03": {"prop_file": "props/C03.v", "scenarios": [{"name": "hist-c03"}], "rule": HIST_RULE + "; random histories over up to 4 cursors (clones), runs of relative moves followed by absolute moves (the stale-cache shape), with the D2 replay first",
+            "trusted": READER_TRUST, "assumptions": ["functional_extensionality_dep (stdlib axiom) in C03_depends_on_loader_only"],
+            "not_proved": ["C03_history (every specified result of every history equals Spec.aspec): needs R on the byte-level model; validated on every operation of every generated history incl. internal cursor state"]},
+    "C04": {"prop_file": "props/C04.v", "scenarios": [{"name": "iter-c04"}], "rule": HIST_RULE + "; 24 ranges per file over all 9 bound-kind pairs with equal and inverted bounds forced, both directions",
+            "trusted": READER_TRUST, "assumptions": [],
+            "not_proved": ["C04_range (collect (range_iter) = filter in_range; reverse = rev): needs R; validated against Spec.range_spec on every query"]},
+    "C05": {"prop_file": "props/C05.v", "scenarios": [{"name": "iter-c05"}], "rule": HIST_RULE + "; 24 prefixes per file: empty, 0xFF runs, proper prefixes of stored keys, prefixes whose successor is a stored key, key+FF, random; both directions",
+            "trusted": READER_TRUST, "assumptions": [],
+            "not_proved": ["C05_prefix (collect (prefix_iter) = filter has_prefix; reverse = rev): advance_key and the prefix-interval fact are proved (C05_advance_key_spec); the composition with the cursor needs R; validated against Spec.prefix_spec on every query"]},
+    "C16": {"prop_file": "props/C16.v", "scenarios": [{"name": "hist-c16"}], "rule": HIST_RULE + "; block loads (absolute seeks) counted per operation by an instrumented source",
+            "trusted": READER_TRUST, "assumptions": [],
+            "not_proved": ["C16_loads (every operation from every reachable state loads <= 2*(levels+2) blocks): needs R; checked on every operation: implementation loads <= model loads and <= the bound"]},
+    "C06": {"prop_file": "props/C06.v", "scenarios": [{"name": "merge-c06"}],
+            "rule": "0..8 sources over a shared key pool with forced overlap patterns (disjoint, identical, chains, random), empty sources, each source written with its own file configuration; values tagged with their source; order-revealing merge function (concatenation) logging every call, and merge functions failing at a chosen call; non-trivial = >= 2 sources and >= 2 entries, distinct by the source files",
+            "trusted": ["sources are modelled by the entry lists their files hold (C01)", "BinaryHeap::pop returns the maximum of a strict total order (std)"], "assumptions": [],
+            "not_proved": ["C06_merge on the executable Merger.merge_run (ascending union, one call per key with values in source order): proved on the abstract merger of design-notes/Merge_probe.v; the link heap-list model -> abstract merger is validated by execution (outputs and call sequences), not yet proved"]},
+    "C07": {"prop_file": "props/C07.v", "scenarios": [{"name": "sorter-c07", "timeout": 1200}],
+            "rule": "hook-driven budgets 64..4096+, initial capacity 16..budget, max_nb_chunks 0..5, stable/unstable, sequential/parallel (rayon), chunk codecs, chunk index levels 0..2 and block sizes 32..8192, instrumented in-memory chunk storage; 0..400 inserts over a small key pool (heavy duplication) with entry sizes from empty to 3x the budget; all three output paths; non-trivial = at least two chunk creations, distinct by configuration+inserts",
+            "trusted": ["sort_by_key / sort_unstable_by_key / rayon par_sort* contracts (sorted permutation, stable for Stable, for every schedule)", "chunk files are modelled by the entry lists they hold (C01)"], "assumptions": ["unstable algorithm is compared under a commutative merge function (sorted bytes of all values)"],
+            "not_proved": ["C07_sorter_stable on the executable Sorter.sorter_run (= Sorter.sorter_spec for every configuration): proved on the abstract model of design-notes/SorterMerge_probe.v under assoc_mf; on the executable model only the sort step is proved (C07_sort_is_permutation, C07_sort_is_sorted); validated on every generated case"]},
+    "C08": {"prop_file": "props/C08.v", "scenarios": [{"name": "sorter-c08", "timeout": 1200}],
+            "thorough_scenarios": [{"name": "sorter-real", "timeout": 1800, "shards": 3}],
+            "rule": "as C07 but every entry <= budget/4; after every insert the hook triple (buffer length, data bytes, bound count) and chunk count are compared with the model and the bounds evaluated; chunk objects count their own creation and drop; thorough adds 64 MB of inserts at the real 10 MiB minimum budget without hooks",
+            "trusted": [], "assumptions": ["hypotheses of C08_bounds: 64 <= T < 2^64, 1 <= initial capacity <= T (= T without reallocation), M >= 1, entries <= T/4"],
+            "not_proved": ["the projection lemma 'Sorter.s_insert bookkeeping = Sorter.n_insert' (both are compared with the implementation after every insert)"]},
+    "C17": {"prop_file": "props/C17.v", "scenarios": [{"name": "sorter-c17", "timeout": 1200}],
+            "rule": "as C07 (entries from empty to larger than the buffer, repeated doubling, exact fill); overflow checks and debug assertions ON for grenad in the harness build; a tracking global allocator checks that every 8-aligned 16-multiple allocation is freed with the layout it was allocated with",
+            "trusted": ["what no executable Gallina model can express: that slice::from_raw_parts over the allocation and the transmute-to-'static sites respect Rust's aliasing and lifetime rules; the allocator itself"], "assumptions": [],
+            "not_proved": ["memory-safety of the unsafe blocks beyond index arithmetic (outside the technique); reader/merger borrowed-slice lifetimes"]},
+})
+
 NOT_APPLICABLE = {}
 
 MANIFEST_TEXT = {
@@ -126,3 +164,18 @@ MANIFEST_TEXT = {
         "technique": "Rocq proof (induction-free arithmetic on base-128 digits) + model/implementation differential execution",
     },
 }
+
+def _mt(text, ref, note, tech):
+    return {"text": text, "design_ref": ref, "note": note, "technique": tech}
+_PARTIAL = " Partial proof: see not_proved in the evidence file. Trusted: Coq kernel; the hand transcription (validated by the correspondence of every run); extraction, OCaml driver, Rust harness."
+MANIFEST_TEXT.update({
+    "C02": _mt("Proved: the specification functions compute the ceiling/floor/match the property describes (C02_ceil_spec, C02_ceil_none, C02_floor_spec). Every run: every probe class on fresh/reset cursors through implementation, executable model and specification, incl. multi-level files with several blocks per index level and V1/0.4.7-independent layouts.", "DESIGN.md §5 C02", "Axioms: none." + _PARTIAL, "Rocq proof (specification lemmas) + implementation/model/specification differential execution over all probe classes"),
+    "C03": _mt("Proved: reset forgets the whole cache, results are a function of (loader,state,op) so clones continue identically, the file is consulted only through the loader, absolute moves of the abstract cursor ignore history. Every run: random multi-cursor histories with results, per-operation block loads and the fingerprint of every cached block compared between implementation and model after every step, results compared with the abstract cursor wherever it specifies them; the D2 replay runs first.", "DESIGN.md §5 C03", "Axiom: functional_extensionality_dep (stdlib)." + _PARTIAL, "Rocq proof (structural lemmas) + state-level implementation/model correspondence on operation histories + abstract-cursor oracle"),
+    "C04": _mt("Proved: the specification is the filter by both bounds; shape of the iterator step. Every run: ranges over all bound-kind pairs (equal, inverted, absent, present bounds), forward and reverse, through implementation, model and specification.", "DESIGN.md §5 C04", "Axioms: none." + _PARTIAL, "Rocq proof (specification lemmas) + implementation/model/specification differential execution"),
+    "C05": _mt("Proved for all byte strings: advance_key returns None exactly for all-0xFF prefixes and otherwise the exclusive upper end of the interval of keys sharing the prefix (C05_advance_key_spec). Every run: prefixes of every class (empty, 0xFF runs, successor stored, longer than every key) forward and reverse through implementation, model and specification.", "DESIGN.md §5 C05", "Axioms: none." + _PARTIAL, "Rocq proof (induction on the prefix: carry loop, prefix interval) + implementation/model/specification differential execution"),
+    "C06": _mt("Proved on the executable model: heap pops remove exactly one element, which sources enter the heap, empty sources yield nothing without a merge call. The full merge theorem is proved on the abstract merger (design-notes). Every run: outputs, the exact sequence of (key, values) the merge function receives, failures of the merge function, and the file produced through a writer, for implementation vs model, plus the three defining clauses evaluated on the implementation's output.", "DESIGN.md §5 C06", "Axioms: none." + _PARTIAL, "Rocq proof (heap lemmas; abstract merge theorem) + implementation/model differential execution with call logging"),
+    "C07": _mt("Proved on the executable model: the sort step is a sorted permutation. The spill/merge independence is proved on the abstract model (design-notes). Every run: all three output paths of the real sorter under tiny budgets (hundreds of spills and chunk merges per case), both algorithms, rayon on/off, equal to the model and to sort-and-merge of the inserts.", "DESIGN.md §5 C07", "Axioms: none." + _PARTIAL, "Rocq proof (sort lemmas; abstract chunk-merge theorem) + implementation/model/specification differential execution"),
+    "C08": _mt("Proved for unbounded insert sequences (C08_bounds, C08_volume): under 64 <= T < 2^64, capacity <= T, M >= 1 and entries <= T/4 every insert succeeds, the unspilled volume stays <= 2T (T without realloc), at most M+2 chunks are alive, every chunk comes from the creator. Every run: buffer triple and chunk count after every insert equal to the model, creator calls equal, live-chunk peak <= model.", "DESIGN.md §5 C08", "Axioms: none. Complete for the numeric model; its tie to sorter.rs is the per-insert comparison." + _PARTIAL, "Rocq proof (invariant by induction over inserts, doubling-loop termination) + per-insert state correspondence"),
+    "C17": _mt("Proved (partial by nature): the buffer invariant (16-byte granularity, bounds and data regions disjoint, n <= L/16) is preserved by every insert of any size, fits/remaining never underflow, the doubling loop terminates for every usize size, allocation sizes are the rounded sizes. Every run: overflow-checked build, buffer triple compared after every insert, tracking allocator checks dealloc layouts, chunk leak counter.", "DESIGN.md §5 C17", "Axioms: none. Not expressible: aliasing/lifetime soundness of unsafe code, allocator behaviour." + _PARTIAL, "Rocq proof (arithmetic invariant) + overflow-checked differential execution + layout-tracking allocator"),
+    "C16": _mt("Proved: open consults only the last 22 bytes whatever the file size (C16_open_reads_only_the_trailer); reset/current load nothing. Every run: block loads per operation counted by an instrumented source: implementation <= model <= 2*(levels+2).", "DESIGN.md §5 C16", "Axioms: none." + _PARTIAL, "Rocq proof (trailer locality) + per-operation I/O counting against the model and the bound"),
+})
